@@ -34,6 +34,12 @@ CLAIMED['C10'] = dict(level='proof', design='DESIGN.md section 7 (C10)',
     note='Trusted: pyvc encoding; rely on waiter callbacks (public API only); ghost flag for "check queued now"; C01 for '
          '"time advances only when nothing is queued at now".',
     technique='contract-based deductive verification: rely/guarantee across callbacks, ghost state, loop invariant, z3')
+CLAIMED['C12'] = dict(level='proof', design='DESIGN.md section 7 (C12)',
+    text='Maintainer verified against its representation invariant and per-method contracts: acceptance iff no identical order '
+         'queued or in progress, selection in request order skipping only orders that do not fit or whose target is busy, capacity '
+         'never exceeded, one order per target, exact durations, hooks and cost once each, no startable order left waiting.',
+    note='Trusted: pyvc encoding; rely on target hooks; ghost accounting of capacity in use; handler precondition by hand lemma.',
+    technique='contract-based deductive verification: class invariant, loop invariant with ghost maps, rely/guarantee, ghost trace, z3')
 NOT_APPLICABLE = {
     'C04': 'whole-line max-plus recurrence equality is a relational whole-history property outside contract-based '
            'verification (DESIGN.md section 8); its local timing lemmas are proved under C01/C05/C06',
